@@ -101,6 +101,16 @@ func (c *FileHash) Verifier() (io.WriteCloser, error) {
 	return &verifier{h: h, want: sum}, nil
 }
 
+// checkFilename returns an error unless the entry names a file directly
+// inside the directory of the control file listing it: Copy, Move and Remove
+// must never be led outside of that directory by a listed name.
+func (c *FileHash) checkFilename() error {
+	if c.Filename == "" || c.Filename == "." || c.Filename == ".." || strings.Contains(c.Filename, "/") {
+		return fmt.Errorf("File name '%s' is not a plain file name", c.Filename)
+	}
+	return nil
+}
+
 // {{{ Hash File implementations
 
 // ByHashPath returns the corresponding /by-hash/<algorithm>/<hash> path.
